@@ -656,7 +656,15 @@ def check_rrblup(prog, rep):
                 mt = "".join(dump(md).split()) if md is not None else ""
                 okmask = [x % (a_, b_) for x in ("~numpy.all(%s==%s,axis=0)", "numpy.any(%s!=%s,axis=0)", "numpy.logical_not(numpy.all(%s==%s,axis=0))")
                           for a_, b_ in ((Zf, Zf + "[0,:]"), (Zf + "[0,:]", Zf))]
-                if mt not in okmask:
+                mask_ok = mt in okmask
+                if not mask_ok and md is not None:
+                    # same value written with a positional axis / another spelling: compare by value number
+                    try:
+                        mvn = VN(prog, fn).expr(md)
+                        mask_ok = any(mvn == VN(prog, fn).expr(ast.parse(x_, mode="eval").body) for x_ in okmask)
+                    except VNUnknown:
+                        pass
+                if not mask_ok:
                     if "numpy.all(" in mt and not mt.startswith(("~", "numpy.logical_not")):
                         rep.violate("R7-rrblup", fn.qualname, "the markers handed to the solver are the MONOMORPHIC ones (%s)" % dump(md)[:60], where(fn), "~numpy.all(Z == Z[0,:], axis=0)", dump(md)[:60])
                     else:
